@@ -4,6 +4,7 @@ import (
 	"context"
 	"encoding/binary"
 	"sort"
+	"time"
 
 	"github.com/twmb/franz-go/pkg/kmsg"
 
@@ -31,6 +32,39 @@ type vsymWorld struct {
 	commits int                 // CommitConsumerOffset calls observed by the monitor
 	lastGen int32
 	resubscribed map[string]bool
+	sessionMs int32 // session timeout sent with joins (default 10 s = the rebalance timeout)
+	fixedSubs bool // every join subscribes to {t0} (properties that do not depend on subscriptions)
+	timed   bool // step() may also let time pass and run the coordinator's cleanup tick
+}
+
+// Virtual time: under the executor time.Now is pinned (natively the microseconds that pass are
+// negligible against the millisecond band kept clear below); time advances only through
+// elapse(d), which moves every instant the coordinator has stored d nanoseconds into the past.
+func vsymPinClock() {
+	if vsym_Symbolic() {
+		vsym_Override("time.Now", func() time.Time { return time.Unix(1700000000, 0) })
+	}
+}
+
+func (w *vsymWorld) elapse(d int64) {
+	st := w.state()
+	if st == nil {
+		return
+	}
+	now := time.Now()
+	band := func(left time.Duration) {
+		// keep every deadline at least 1 ms away from "now" so that the native clock drift
+		// cannot flip a comparison the solver decided
+		vsym_Assume(vsym_Or(left < -time.Millisecond, left > time.Millisecond))
+	}
+	for _, m := range st.members {
+		m.lastHeartbeat = m.lastHeartbeat.Add(-time.Duration(d))
+		band(m.sessionTimeout - now.Sub(m.lastHeartbeat))
+	}
+	if !st.rebalanceDeadline.IsZero() {
+		st.rebalanceDeadline = st.rebalanceDeadline.Add(-time.Duration(d))
+		band(st.rebalanceDeadline.Sub(now))
+	}
 }
 
 type vsymMonitorStore struct {
@@ -44,6 +78,7 @@ func (s *vsymMonitorStore) CommitConsumerOffset(ctx context.Context, group, topi
 }
 
 func vsymNewWorld(prop string, n0, n1 int) *vsymWorld {
+	vsymPinClock()
 	w := &vsymWorld{prop: prop, nparts: []int{n0, n1}, subs: map[string][]string{}}
 	mk := func(name string, n int) protocol.MetadataTopic {
 		t := protocol.MetadataTopic{Topic: kmsg.StringPtr(name)}
@@ -110,7 +145,17 @@ func vsymDecodeAssignment(b []byte) (map[string][]int32, bool) {
 	return out, true
 }
 
+func (w *vsymWorld) chooseSubs() []string {
+	if w.fixedSubs {
+		return []string{"t0"}
+	}
+	return vsymSubsFromMask(1 + vsym_Choose("subs", 4))
+}
+
 func vsymSubsFromMask(mask int) []string {
+	if mask == 4 {
+		return []string{"t1", "t0"} // both topics, not in lexical order
+	}
 	var s []string
 	if mask&1 != 0 {
 		s = append(s, "t0")
@@ -129,6 +174,9 @@ func (w *vsymWorld) join(memberID string, subs []string) *kmsg.JoinGroupResponse
 	req.MemberID = memberID
 	req.ProtocolType = "consumer"
 	req.SessionTimeoutMillis = 10000
+	if w.sessionMs != 0 {
+		req.SessionTimeoutMillis = w.sessionMs
+	}
 	req.RebalanceTimeoutMillis = 10000
 	p := kmsg.NewJoinGroupRequestProtocol()
 	p.Name = "range"
@@ -224,17 +272,33 @@ func (w *vsymWorld) pick(tag string) string {
 // step performs one solver-chosen operation of a well-behaved or misbehaving client.
 // It returns false when the chosen operation is not applicable (path pruned by the caller).
 func (w *vsymWorld) step() {
-	switch vsym_Choose("op", 5) {
+	nops := 5
+	if w.timed {
+		nops = 7
+	}
+	switch vsym_Choose("op", nops) {
+	case 5:
+		if w.state() == nil {
+			vsym_Assume(false)
+		}
+		d := vsym_Int64("dt")
+		vsym_Assume(d >= 0 && d <= int64(time.Hour))
+		w.elapse(d)
+	case 6:
+		if w.state() == nil {
+			vsym_Assume(false)
+		}
+		w.c.cleanupGroups()
 	case 0:
 		if len(w.ids) >= 3 {
 			vsym_Assume(false)
 		}
-		w.checkJoin(w.join("", vsymSubsFromMask(1+vsym_Choose("subs", 3))))
+		w.checkJoin(w.join("", w.chooseSubs()))
 	case 1:
 		if len(w.ids) == 0 {
 			vsym_Assume(false)
 		}
-		w.checkJoin(w.join(w.ids[vsym_Choose("who", len(w.ids))], vsymSubsFromMask(1+vsym_Choose("subs", 3))))
+		w.checkJoin(w.join(w.ids[vsym_Choose("who", len(w.ids))], w.chooseSubs()))
 	case 2:
 		if len(w.ids) == 0 || w.state() == nil {
 			vsym_Assume(false)
